@@ -447,9 +447,10 @@ fn run_matrix(ctx: &mut Ctx, _rng: &mut Rng, index: u64) {
             continue;
         }
         let out = run_case(b6, b4, v4_first, deadline, connect_timeout_ms);
+        // a timing verdict is only believed when it reproduces three times in a row
         let timing = out.violation.as_ref().map_or(false, |(s, _)| s.starts_with("timing:"));
-        if timing && attempt < 2 && oversleep() > Duration::from_millis(100) {
-            ctx.count("retries_after_load_probe", 1);
+        if timing && attempt < 2 {
+            ctx.count("timing_verdicts_rechecked", 1);
             last = Some(out);
             continue;
         }
